@@ -473,6 +473,11 @@ class Doist(tyming.Tymist):
         if deeds is None:
             deeds = self.deeds
 
+        for i, deed in enumerate(deeds):  # recur pass interrupted by exception
+            if not deed[0]:  # marker still in deeds, deeds before it have not rerun
+                deeds.rotate(-(i + 1))  # restore enter order: rerun deeds first
+                break
+
         while(deeds):  # .close each remaining dog in deeds in reverse order
             dog, retime, doer = deeds.pop()  # pop it off in reverse (right side)
             if not dog:  # marker deed
@@ -1347,6 +1352,11 @@ class DoDoer(Doer):
         """
         if deeds is None:
             deeds = self.deeds
+
+        for i, deed in enumerate(deeds):  # recur pass interrupted by exception
+            if not deed[0]:  # marker still in deeds, deeds before it have not rerun
+                deeds.rotate(-(i + 1))  # restore enter order: rerun deeds first
+                break
 
         while(deeds):  # .close each remaining dog in deeds in reverse order
             dog, retime, doer = deeds.pop()  # pop it off in reverse (right side)
